@@ -2,7 +2,7 @@
 REG = dict(
     engine='E1-enum',
     technique='bounded-exhaustive enumeration of syntax trees x layouts and of single-token edits (inputs with parse errors), fixed-point oracle on the real formatter; `garden format --check` through the real CLI',
-    text='Inputs: (1) the C17 layout space with the reduced depth-2 set in both tiers (every program of the depth-1 / depth-2 / representative / definition-level sets under every layout with <=1 (some groups <=2 in thorough) gaps deviating from canonical over the 8-separator alphabet, all string-literal content variants), here INCLUDING the layouts the parser rejects or maps to another tree; (2) every single-piece deletion, insertion-before and replacement over an 18-lexeme edit alphabet (identifiers, literals, unclosed string, brackets, `=`, `=>`, keywords, a line comment, a non-ASCII character) applied to the canonical text of 117 representative trees and items (quick) / of every C33 depth-1 tree and every definition-level program (thorough): mostly inputs with parse errors. Oracle: format(format(s)) == format(s) for every input, in process; `garden format --check <file>` through the real CLI (16 processes in parallel) exits 0 on every distinct output of the representative, definition and edit families up to a cap (400 quick / 6000 thorough) and exits 1 on outputs the in-process check found unstable (a disagreement between the two is reported as adapter drift). Exhaustive within these bounds.',
+    text='Inputs: (1) the C17 layout space with the reduced depth-2 set in both tiers (every program of the depth-1 / depth-2 / representative / definition-level sets under every layout with <=1 (some groups <=2 in thorough) gaps deviating from canonical over the 8-separator alphabet plus the code-like comments next to spacing tokens, all string-literal content variants, the non-ASCII variants), here INCLUDING the layouts the parser rejects or maps to another tree; (2) every single-piece deletion, insertion-before and replacement over an 18-lexeme edit alphabet (identifiers, literals, unclosed string, brackets, `=`, `=>`, keywords, a line comment, a non-ASCII character) applied to the canonical text of 117 representative trees and items (quick) / of every C33 depth-1 tree and every definition-level program (thorough): mostly inputs with parse errors. Oracle: format(format(s)) == format(s) for every input, in process; `garden format --check <file>` through the real CLI (16 processes in parallel) exits 0 on every distinct output of the representative, definition and edit families up to a cap (400 quick / 6000 thorough) and exits 1 on outputs the in-process check found unstable (a disagreement between the two is reported as adapter drift). Exhaustive within these bounds.',
     note='The in-process adapter calls the same `format::format` as the CLI; the CLI additionally strips a reftest footer (`// args: ` lines) which the explored alphabet cannot produce. Inputs outside the layout / edit bounds are not covered.',
     design_ref='DESIGN.md §6 C17 / C18',
 )
@@ -69,7 +69,7 @@ def run(ctx):
     import time
     t0 = time.time()
     cache = c17.FormatCache(ctx, ["format"])
-    n_inputs = n_jobs = n_changed = n_err_inputs = n_fixed_inputs = 0
+    n_inputs = n_jobs = n_changed = n_err_inputs = n_fixed_inputs = n_nonascii_changed = 0
     unstable = {}            # F -> (sig, detail)
     cli_pool = {}            # F -> description (bounded, deterministic order)
     cli_cap = 400 if ctx.quick else 6000
@@ -107,7 +107,7 @@ def run(ctx):
         ctx.bound(f"{gname}: programs", len(bases))
         ctx.bound(f"{gname}: max deviating gaps", k)
         pending = []
-        for b, d, t, r, st in layout.explore(ctx, bases, k, ["format"], classify=False):
+        for b, d, t, r, st in layout.explore(ctx, bases, k, ["format"], classify=False, token_comments=c17.token_comments_for(gname, ctx.quick)):
             n_inputs += 1
             n_jobs += 1
             status[st] = status.get(st, 0) + 1
@@ -119,6 +119,7 @@ def run(ctx):
                 n_err_inputs += 1
             if F != t:
                 n_changed += 1
+                n_nonascii_changed += b.variant == "non-ascii"
             if gname in ("representatives", "definitions") and len(cli_pool) < cli_cap // 2:
                 cli_pool.setdefault(F, f"{gname}: {b.kind} {layout.dev_name(b, d)}")
             pending.append((t, F, {"kind": b.kind, "change": f"[{c17.variant_class(b)}] {layout.dev_name(b, d)}", "group": gname, "layout_status": st}, st == "parse-error"))
@@ -174,6 +175,9 @@ def run(ctx):
     ctx.outcome("inputs that are already a fixed point (format(s) == s)", n_fixed_inputs)
     ctx.assume("the formatter is a deterministic function of the text: an input with format(s) == s needs no second pass")
     ctx.outcome("second-pass formatter runs (distinct outputs)", cache.jobs)
+    ctx.outcome("non-ASCII layouts the formatter changed", n_nonascii_changed)
+    if n_nonascii_changed == 0:
+        raise Machinery("vacuous exploration: no non-ASCII input was changed by the formatter")
     if n_changed == 0 or n_err_inputs == 0 or n_edit_err == 0 or n_edit_err == n_edits:
         raise Machinery(f"vacuous exploration: changed={n_changed} inputs with parse errors={n_err_inputs} edits={n_edits} broken edits={n_edit_err}")
 
